@@ -180,6 +180,19 @@ type Node struct {
 	useRealTimer  bool
 	shutdownDone  chan struct{}
 
+	controlled    bool // worker select under harness control (H1)
+	lateResultPm  int
+	shuttingDown  bool
+	syncedTo      map[uint64]bool
+	inbox         []*Msg // messages handed to the main loop and not yet taken by the (controlled) worker
+	curMsg        *Msg   // the message the worker is processing
+	wm            hv     // model of the context watermark caused by elections / syncs handed to the main loop
+	maxSync       int64  // highest block height the main loop accepted from UpdateState (-1: none)
+	updates       []updateRec
+	syncPre       *preState
+	wakeAt        time.Duration // a timed wait inside the library ends by then (committee retry)
+	wakeSeq       uint64
+
 	// per-instance oracle state
 	regEpochStart   int
 	lastSample      hv
@@ -272,6 +285,7 @@ type World struct {
 	tainted  bool
 	hold     func(f *Flight) bool
 	dir      *director
+	recovering bool
 	yieldAll bool
 	yieldN   int
 	yields   []*yieldRec
@@ -448,11 +462,12 @@ func (w *World) startNode(n *Node) {
 		n.realTrig = nil
 	}
 	n.cfg = cfg
-	if w.cfg.WorkerControl {
+	if w.cfg.WorkerControl || n.controlled {
 		n.ctrl = newWorkerCtrl(n)
 	} else {
 		n.ctrl = nil
 	}
+	n.inbox, n.curMsg, n.wm, n.maxSync, n.updates, n.shuttingDown = nil, nil, hv{}, -1, nil, false
 	n.ctx, n.cancel = context.WithCancel(context.Background())
 	n.lh = leanhelix.NewLeanHelix(cfg, n.onCommit, n.onNewRound)
 	n.lh.Run(n.ctx)
@@ -491,7 +506,13 @@ func (w *World) releaseAllGates(n *Node) {
 // settle drives the worker controllers (if installed) with the default priority until nothing moves.
 func (w *World) quiesce() {
 	synctest.Wait()
-	if !w.cfg.WorkerControl {
+	any := false
+	for _, n := range w.nodes {
+		if n.ctrl != nil {
+			any = true
+		}
+	}
+	if !any {
 		return
 	}
 	for i := 0; i < 10000; i++ {
@@ -596,6 +617,13 @@ func (w *World) deliver(f *Flight) {
 	n.obs.delivered = append(n.obs.delivered, rec)
 	w.ev("deliver -> n%d : %s #%s %s", n.idx, m.Short(), shortHash(f.raw.Content), f.tag)
 	w.preDeliver(n, rec)
+	if n.ctrl != nil {
+		if forwardedByMainLoop(f.raw) {
+			n.inbox = append(n.inbox, m)
+		}
+	} else {
+		n.curMsg = m
+	}
 	lh, ctx := n.lh, n.ctx
 	go lh.HandleConsensusMessage(ctx, f.raw)
 	w.quiesce()
@@ -806,4 +834,15 @@ func firstLine(s string) string {
 		}
 	}
 	return s
+}
+
+// forwardedByMainLoop: the main loop hands a raw message to the worker only if the library's own parser makes a
+// message of it.
+func forwardedByMainLoop(raw *interfaces.ConsensusRawMessage) (ok bool) {
+	defer func() {
+		if r := recover(); r != nil {
+			ok = true // the main loop itself would have panicked; not this function's business
+		}
+	}()
+	return raw != nil && interfaces.ToConsensusMessage(raw) != nil
 }
